@@ -510,7 +510,7 @@ func (c *compiler) VisitVarDecl(d *ast.VarDecl) ast.VisitResult {
 		if ddptypes.DeepEqual(d.Type, ddptypes.VARIABLE) && initTyp != c.ddpany {
 			vtable := initTyp.VTable()
 			if typeDef, isTypeDef := ddptypes.CastTypeDef(d.InitType); isTypeDef {
-				vtable = c.typeDefVTables[c.mangledNameType(typeDef)]
+				vtable = c.typeDefVTable(typeDef)
 			}
 
 			initVal, _, isTemp = c.castNonAnyToAny(initVal, initTyp, isTemp, vtable)
@@ -1794,7 +1794,7 @@ func (c *compiler) VisitCastExpr(e *ast.CastExpr) ast.VisitResult {
 
 	vtable := c.toIrType(targetType).VTable()
 	if typeDef, isTypeDef := ddptypes.CastTypeDef(e.TargetType); isTypeDef {
-		vtable = c.typeDefVTables[c.mangledNameType(typeDef)]
+		vtable = c.typeDefVTable(typeDef)
 	}
 
 	// helper function to cast non-primitive from any to their concrete type
@@ -2008,7 +2008,7 @@ func (c *compiler) VisitTypeCheck(e *ast.TypeCheck) ast.VisitResult {
 
 	vtable := c.toIrType(e.CheckType).VTable()
 	if typeDef, isTypeDef := ddptypes.CastTypeDef(e.CheckType); isTypeDef {
-		vtable = c.typeDefVTables[c.mangledNameType(typeDef)]
+		vtable = c.typeDefVTable(typeDef)
 	}
 
 	c.latestReturn = c.compareAnyType(lhs, vtable)
@@ -2334,7 +2334,7 @@ func (c *compiler) evaluateStructLiteral(structType *ddptypes.StructType, args m
 		if ddptypes.DeepEqual(field.Type, ddptypes.VARIABLE) && argType != c.ddpany {
 			vtable := argType.VTable()
 			if typeDef, isTypeDef := ddptypes.CastTypeDef(initType); isTypeDef {
-				vtable = c.typeDefVTables[c.mangledNameType(typeDef)]
+				vtable = c.typeDefVTable(typeDef)
 			}
 
 			argVal, argType, isTempArg = c.castNonAnyToAny(argVal, argType, isTempArg, vtable)
@@ -2585,7 +2585,7 @@ func (c *compiler) VisitAssignStmt(s *ast.AssignStmt) ast.VisitResult {
 		if lhsTyp == c.ddpany && rhsTyp != c.ddpany {
 			vtable := rhsTyp.VTable()
 			if typeDef, isTypeDef := ddptypes.CastTypeDef(s.RhsType); isTypeDef {
-				vtable = c.typeDefVTables[c.mangledNameType(typeDef)]
+				vtable = c.typeDefVTable(typeDef)
 			}
 			rhs, rhsTyp, isTempRhs = c.castNonAnyToAny(rhs, rhsTyp, isTempRhs, vtable)
 		}
@@ -3019,7 +3019,7 @@ func (c *compiler) VisitReturnStmt(s *ast.ReturnStmt) ast.VisitResult {
 	val, valTyp, isTemp := c.evaluate(s.Value)
 	vtable := valTyp.VTable()
 	if typeDef, isTypeDef := ddptypes.CastTypeDef(s.Func.ReturnType); isTypeDef {
-		vtable = c.typeDefVTables[c.mangledNameType(typeDef)]
+		vtable = c.typeDefVTable(typeDef)
 	}
 	if valTyp.IsPrimitive() {
 		// implicit cast to any if required
@@ -3059,6 +3059,24 @@ func (c *compiler) VisitTodoStmt(stmt *ast.TodoStmt) ast.VisitResult {
 func (c *compiler) exitNestedScopes(targetScope *scope) {
 	for scp := c.scp; scp != targetScope.enclosing; scp = c.exitScope(scp) {
 	}
+}
+
+// returns the vtable of the given type definition
+// if the definition was not imported into this module (only a declaration that uses it was),
+// the vtable is declared on demand
+func (c *compiler) typeDefVTable(typeDef *ddptypes.TypeDef) constant.Constant {
+	name := c.mangledNameType(typeDef)
+	if vtable, ok := c.typeDefVTables[name]; ok {
+		return vtable
+	}
+
+	// search in the types module for the decl, as it is not present in this module
+	if decl, ok, _ := c.typeMap[typeDef].Ast.Symbols.LookupDecl(typeDef.Name); ok {
+		if typeDefDecl, isTypeDef := decl.(*ast.TypeDefDecl); isTypeDef {
+			c.addTypdefVTable(typeDefDecl, true)
+		}
+	}
+	return c.typeDefVTables[name]
 }
 
 func (c *compiler) addTypdefVTable(d *ast.TypeDefDecl, declarationOnly bool) {
